@@ -570,9 +570,25 @@ package gedcom
 //@ func Decoder.consumeOptionalBOM
 //@   trusted
 //@   assigns nothing
+// C02/C03: a line is read byte by byte from the reader: every byte that is not
+// a line end is kept, in order, exactly once; the line ends at the first CR or
+// LF (returned without an error) or when the reader fails (its error is
+// returned as it is, with what was read so far).
 //@ func Decoder.readLine
-//@   trusted
-//@   assigns nothing
+//@   props C02 C03
+//@   ghost nRead int = 0
+//@   ghost nKept int = 0
+//@   ghost rerr iface
+//@   ghost lastB int = 0
+//@   oncall bufio.Reader.ReadByte do nRead = nRead + 1; rerr = result1; lastB = result0
+//@   oncall bytes.Buffer.WriteByte check keeps-the-byte: arg1 == b
+//@   oncall bytes.Buffer.WriteByte do nKept = nKept + 1
+//@   loop 1 invariant all-kept: nKept == nRead && nRead >= 0
+//@   loop 1 iter one-byte: nRead - old(nRead) == 1 && nKept - old(nKept) == 1 && b != 10 && b != 13
+//@   ensures ends-at-cr-or-lf: implies(isnil(result1), nRead == nKept + 1 && isnil(rerr) && (lastB == 10 || lastB == 13))
+//@   ensures readers-error: implies(!isnil(result1), result1 == rerr && nRead == nKept + 1)
+//@   assigns alloc
+//@   trustframe
 //@ func Document.AddNode
 //@   props C03 C02
 //@   safety
